@@ -3,7 +3,7 @@ package stun
 // C16 — ParseURI terminates safely on every string.
 // C17 — URIs get RFC 7064/7065 defaults, round-trip, and dial the transport they name.
 
-const vxURIMax = 4
+const vxURIMax = 5
 
 func vxSchemePrefix() (string, SchemeType) {
 	switch vxChoose(4) {
